@@ -31,6 +31,12 @@ func corrRest(seed uint64, n int, t tools, id *int) {
 			if i%10 == 3 {
 				fs.styp = false
 			}
+			if i%12 == 5 {
+				addGap(r, &fs)
+			}
+			if i%9 == 4 && !fs.optimize {
+				fs.noInit = true
+			}
 			res := runReseg(fs, d, t)
 			obs := res.class
 			if res.class == "ok" {
@@ -42,6 +48,9 @@ func corrRest(seed uint64, n int, t tools, id *int) {
 	}
 	for i := 0; i < 2*n; i++ {
 		fs := genFragSpec(r, 40)
+		if i%12 == 5 {
+			addGap(r, &fs)
+		}
 		dur := genFragyDur(r, fs)
 		res := runFragmentify(fs, dur)
 		obs := res.class
@@ -304,11 +313,30 @@ func searchRest(seed uint64, n int, t tools, evals *int, outcomes map[string]int
 			if i%50 == 49 {
 				fs.styp = false
 			}
+			if i%12 == 5 {
+				addGap(r, &fs)
+			}
+			if i%9 == 4 && !fs.optimize {
+				fs.noInit = true
+			}
 			outcomes["reseg:"+checkReseg(fs, genResegD(r, fs), t, evals)]++
 		}
 	}
+	{
+		var ev int
+		f := strings.SplitN(fixedFragyGapWitness, "|", 3)
+		fs, err := parseFragWitness(f[2])
+		if err != nil {
+			panic(err)
+		}
+		outcomes["fragy:"+checkFragmentify(fs, 1000, &ev)]++
+		*evals += ev
+	}
 	for i := 0; i < 2*n; i++ {
 		fs := genFragSpec(r, 40)
+		if i%12 == 5 {
+			addGap(r, &fs)
+		}
 		outcomes["fragy:"+checkFragmentify(fs, genFragyDur(r, fs), evals)]++
 	}
 	if t.combine != "" {
@@ -319,8 +347,12 @@ func searchRest(seed uint64, n int, t tools, evals *int, outcomes map[string]int
 	}
 }
 
+const fixedFragyGapWitness = "fragy|d=1000|v=1,ts=1000,styp=1,opt=0,tid=1,segs=2.2,samples=0:40:0:2000000:5/40:40:0:10000:6/500:40:0:10000:7/540:40:0:10000:3"
+
 func fixedResegWitnesses() []string {
 	return []string{
+		// decode-time gap between two input fragments, both sides in one output segment (recorded finding C11-F3)
+		"reseg|d=1000|v=1,ts=1000,styp=1,opt=0,tid=1,segs=2.2,samples=0:40:0:2000000:5/40:40:0:10000:6/500:40:0:10000:7/540:40:0:10000:3",
 		// first sample already beyond the first boundary: an empty first segment, then everything
 		"reseg|d=10|v=1,ts=1000,styp=1,opt=0,tid=1,segs=3,samples=100:40:0:2000000:5/140:40:0:10000:6/180:40:0:2000000:7",
 		// fragmented input that does not start its segments with styp
